@@ -49,6 +49,8 @@ def main():
                 demo_src = os.path.join(seed, cand)
         demo_path = meta.get("demo_path")
         demo_cmd = meta.get("demo_cmd")
+        if demo_cmd and "go test" in demo_cmd and ("<worktree>" in demo_cmd or "cp " in demo_cmd):
+            demo_cmd = demo_cmd[demo_cmd.index("go test"):]   # the copy is done here
         def run_demo():
             if not (demo_src and demo_path and demo_cmd):
                 return None, "no runnable demo in meta.json"
